@@ -96,7 +96,7 @@ def run(ctx):
     ctx.build()
     tmp = os.path.join(ctx.work, "files")
     os.makedirs(tmp, exist_ok=True)
-    s = ctx.vh(["conc-race", "rounds=%d" % (6 if quick else 40), "dir=" + tmp], race=True, timeout=3000,
+    s = ctx.vh(["conc-race", "rounds=%d" % (6 if quick else 120), "dir=" + tmp], race=True, timeout=3000,
                env={"GORACE": "halt_on_error=0 exitcode=0"}, check=True)
     races = s["_stderr"].count("WARNING: DATA RACE")
     ctx.evaluations += s["queries"]
@@ -113,7 +113,7 @@ def run(ctx):
                    {"reexec": ["conc-race"], "samples": s["wrong_samples"], "seed": ctx.seed}, {"cause": "wrong-answer"})
     # ---- (3) gate runs + trace validation ----
     gp = os.path.join(ctx.work, "gate.ndjson")
-    gs = ctx.vh(["conc-gate", "runs=%d" % (15 if quick else 120), "out=" + gp, "dir=" + tmp], timeout=3000)
+    gs = ctx.vh(["conc-gate", "runs=%d" % (15 if quick else 400), "out=" + gp, "dir=" + tmp], timeout=3000)
     ctx.extra["window_overlaps_observed"] = gs["overlaps"]
     runs = vf.read_ndjson(gp)
     jobs, keys = [], []
